@@ -50,6 +50,7 @@ class DomainParser:
         """
         self.logger.info("Starting to parse the types in the domain!")
         pddl_types = {}
+        declarations = []  # pairs of (the declared types, the name of their parent)
         same_types_objects = []
         index = 0
         while index < len(types):
@@ -58,29 +59,27 @@ class DomainParser:
                 index += 1
                 continue
 
-            pddl_type = types[index + 1]
-            parent_type = pddl_types.get(
-                pddl_type, PDDLType(name=pddl_type, parent=ObjectType)
-            )
-            pddl_types.update(
-                {
-                    descendant_typ_name: PDDLType(
-                        name=descendant_typ_name, parent=parent_type
-                    )
-                    for descendant_typ_name in same_types_objects
-                }
-            )
+            declarations.append((same_types_objects, types[index + 1]))
             same_types_objects = []
             index += 2
             continue
 
         if len(same_types_objects) > 0:
-            pddl_types.update(
-                {
-                    type_name: PDDLType(name=type_name, parent=ObjectType)
-                    for type_name in same_types_objects
-                }
-            )
+            declarations.append((same_types_objects, "object"))
+
+        # First registering every type that is mentioned, as a child or as a parent, and only then connecting the
+        # types to their parents so that the hierarchy does not depend on the order of the declarations.
+        for declared_types, parent_type_name in declarations:
+            for type_name in [*declared_types, parent_type_name]:
+                if type_name != "object" and type_name not in pddl_types:
+                    pddl_types[type_name] = PDDLType(name=type_name, parent=ObjectType)
+
+        for declared_types, parent_type_name in declarations:
+            for type_name in declared_types:
+                if type_name != "object":
+                    pddl_types[type_name].parent = pddl_types.get(
+                        parent_type_name, ObjectType
+                    )
 
         pddl_types["object"] = ObjectType
         self.logger.debug(
